@@ -5,6 +5,7 @@ import Cutadapt.Proofs.IndexOrder
 import Cutadapt.Proofs.IndexLookup
 import Cutadapt.Proofs.IndexLengths
 import Cutadapt.Proofs.IndexNearest
+import Cutadapt.Proofs.IndexCoords
 /-! # C08 — an adapter index changes only speed, never what is found
 
 Model: `Cutadapt/Index.lean` (`hammingSphere`, `editEnvironment`, `makeIndex`, `indexMatchTo`).
@@ -286,6 +287,29 @@ theorem index_sound {D : Type} (ops : DictOps D) (hl : ops.Lawful) (adapters : L
   have hgetD : adapters.getD mt.adapter default = a := by simp [List.getD_eq_getElem?_getD, hai]
   rw [hgetD] at h6
   exact ⟨a, hai, h1, h2, h3, h4, h5, h6, hk, hd⟩
+
+/-- **Coordinates inside the read for every read — with or without `N`, of any length**: `0 ≤ rstart ≤ rstop ≤ n` and
+    the match is anchored. For reads with `N` the match length is that of the re-alignment by the adapter's own
+    `match_to`; `RealignInside adapters` is the C01 fact that such a re-alignment lies inside the string it was given
+    (`C01.matchTo_sound … .bounds`, for every well-formed adapter). -/
+theorem index_coordinates_in_read {D : Type} (ops : DictOps D) (hl : ops.Lawful) (adapters : List Adapter) (isPrefix : Bool)
+    (read : Bytes) (hacgt : ∀ a ∈ adapters, IsACGT a.seq) (hre : RealignInside adapters)
+    (mt : IndexMatch) (h : indexMatchTo ops (makeIndex ops adapters isPrefix) read = some mt) :
+    0 ≤ mt.rstart ∧ mt.rstart ≤ mt.rstop ∧ mt.rstop ≤ read.length ∧
+    (if isPrefix then mt.rstart = 0 else mt.rstop = read.length) := by
+  refine indexMatchTo_coords ops (makeIndex ops adapters isPrefix) read ?_
+    (index_keys_have_indexed_length ops hl adapters isPrefix hacgt) hre mt h
+  intro s ai e m hg
+  obtain ⟨a, hai, _⟩ := index_entry_offered ops hl adapters isPrefix s ai e m hg
+  exact ⟨a, List.mem_of_getElem? hai, by
+    show adapters.getD ai default = a
+    simp [List.getD_eq_getElem?_getD, hai]⟩
+
+/-- former defect 3 (`^ACGTACGT`, `^TTTTGGGG`, one error, indels; read `ACGTACGTNA`): the affix `ACGTACGTN` of length 9
+    is looked up, the re-alignment covers 8 characters with 0 errors, and 8 — not 9 — characters are removed -/
+example : indexMatchTo alistOps (makeIndex alistOps
+      [mkA .prefix [65,67,71,84,65,67,71,84] 1 true, mkA .prefix [84,84,84,84,71,71,71,71] 1 true] true)
+      [65,67,71,84,65,67,71,84,78,65] = some ⟨0, 0, 8, 0, 8, 8, 0⟩ := by decide +kernel
 
 /-- former defect 1 (3' adapters `ACGT$`, `ACACGT$`, read `ACGT`, shorter than the indexed length 6): the length 6 is
     skipped now and the read is found at length 4, `rstart = 0` (was `−2`) -/
